@@ -149,6 +149,8 @@ pub enum AtRest {
     /// flip `mask` (<= 32 bit burst) in record `rec` of blob, at byte `off` of region `class`
     BitFlip { blob: usize, rec: usize, class: ByteClass, off: u32, mask: u32 },
     BlobTruncate { blob: usize, len: u64 },
+    /// zero a range of the body of an index file (header intact): what a lost un-synced write leaves
+    IndexBodyZero { blob: usize, from_permille: u32, len: u32 },
 }
 
 #[derive(Serialize, Deserialize, Clone, Copy, Debug, PartialEq)]
@@ -211,6 +213,15 @@ pub struct PowerCut {
     pub torn: u8,
     /// other files keep all (true) or none (false) of their un-synced bytes
     pub others_keep_all: bool,
+    /// un-synced writes are not ordered on a real disk: in every file with at least two un-synced
+    /// writes the write with this index (modulo their number) is lost while the later ones survive
+    #[serde(default)]
+    pub lost_write: Option<u32>,
+    /// the same at the granularity of the disk: of the 4 KiB blocks touched by the un-synced writes of
+    /// a file, the block with this index (modulo their number) keeps its old content (zeros where the
+    /// file did not reach before) while everything else survives
+    #[serde(default)]
+    pub lost_block: Option<u32>,
 }
 
 #[derive(Serialize, Deserialize, Clone, Debug, PartialEq)]
